@@ -2,7 +2,8 @@ import RgVerif.Model.Matcher
 import RgVerif.Model.Interpolate
 /-
 Model of `crates/printer/src/util.rs`: `trim_line_terminator`,
-`replace_with_captures_in_context`, `Replacer::replace_all` (non-multi-line branch).
+`replace_with_captures_in_context`, `Replacer::replace_all` (non-multi-line branch), and the two
+`StandardSink` callbacks that call it.
 -/
 namespace RgVerif.Replace
 open RgVerif.Matcher RgVerif.Interp
@@ -73,16 +74,20 @@ def replaceWithCapturesInContext (capsAt : Nat → Option Caps) (names : List (B
   let end_ := min bytes.length re
   { st with dst := st.dst ++ slice bytes st.lastMatch end_ }
 
-/-- `Replacer::replace_all(searcher, matcher, haystack, range, replacement)` when not multi-line:
-the haystack is cut at the end of `range` minus its line terminator, the replacement is done on the cut
-haystack, and the terminator bytes that were cut off are put back after it (`dst.extend(line_term)`).
-`capsAt` is the matcher run on the cut haystack. Returns `dst` and the expansion offsets. -/
+/-- `Replacer::replace_all(searcher, matcher, haystack, range, replacement)` when not multi-line (since the
+repair 0cdcce3): the line `[rs, re)` is searched on its own — the haystack handed to the matcher is the line
+without its terminator (`&haystack[range.start..m.end()]`, `m` = the range with its terminator trimmed), the range
+becomes `0..re-rs`, the replacement is done on that haystack, and the terminator bytes that were cut off are put
+back after it (`dst.extend(line_term)`). `capsAtOf hay` is the matcher run on that haystack. Returns `dst` and the
+expansion offsets. (The real `trim_line_terminator` would panic rather than trim below `rs`; that needs a `\r`
+directly before a line that is just `\n`, which no line range delivered by the searcher has.) -/
 def replaceAllLine (t : LineTerm) (capsAtOf : Bytes → Nat → Option Caps) (names : List (Bytes × Nat))
     (haystack : Bytes) (rs re : Nat) (tmpl : Bytes) : RState :=
-  let e := trimLineTerminator t haystack 0 re
+  let e := trimLineTerminator t haystack rs re
   let lineTerm := slice haystack e re
-  let hay := haystack.take e
-  let st := replaceWithCapturesInContext (capsAtOf hay) names hay rs re (isAtUnterminatedEnd t hay rs re) tmpl
+  let hay := slice haystack rs e
+  let st := replaceWithCapturesInContext (capsAtOf hay) names hay 0 (re - rs)
+    (isAtUnterminatedEnd t hay 0 (re - rs)) tmpl
   { st with dst := st.dst ++ lineTerm }
 
 def LineTerm.bytes : LineTerm → Bytes
@@ -118,5 +123,26 @@ def printRecords (t : LineTerm) (only perMatch : Bool) (line : Bytes) (st : RSta
 /-- The record texts only (what is written after each prelude). -/
 def printMatched (t : LineTerm) (only : Bool) (line : Bytes) (st : RState) : Bytes :=
   (printRecords t only false line st).flatMap (·.text)
+
+/-- Which `Sink` callback delivers a line to the printer. -/
+inductive LineKind where
+  | matched
+  | context
+  deriving Repr, DecidableEq
+
+/-- `StandardSink::matched` / `StandardSink::context` with a replacement configured: the records of one
+delivered line `[rs, re)` of `haystack`. A matched line is always handed to the replacer, with the whole buffer as
+haystack. A context line is handed to it only when the search is inverted (`if searcher.invert_match()`: then the
+context lines are the ones that contain matches) and as a haystack of its own (`ctx.bytes()`, range all of it);
+otherwise `replacer.clear()` leaves no replacement and the line goes through `sink_fast` as it is. -/
+def sinkLine (t : LineTerm) (only perMatch invert : Bool) (kind : LineKind)
+    (capsAtOf : Bytes → Nat → Option Caps) (names : List (Bytes × Nat))
+    (haystack : Bytes) (rs re : Nat) (tmpl : Bytes) : List Record :=
+  let line := slice haystack rs re
+  match kind with
+  | .matched => printRecords t only perMatch line (replaceAllLine t capsAtOf names haystack rs re tmpl)
+  | .context =>
+    if invert then printRecords t only perMatch line (replaceAllLine t capsAtOf names line 0 line.length tmpl)
+    else [⟨none, completeLine t line⟩]
 
 end RgVerif.Replace
